@@ -146,14 +146,14 @@ def _bad_return(which, rng):
     if which == "measurement":
         return rng.choice([5, None, ["m"]])
     if which == "tags":
-        return rng.choice([{"$": "pairs", "v": [["a", 5]]},
-                           {"$": "pairs", "v": [[5, "x"]]},
-                           {"$": "pairs", "v": [["a", True]]}, 5,
-                           {"$": "set", "v": ["a"]}])
-    return rng.choice([{"$": "pairs", "v": [["p", "1"]]},
-                       {"$": "pairs", "v": [[5, 1]]},
-                       {"$": "pairs", "v": [["p", True]]}, 5,
-                       {"$": "set", "v": ["p"]}])
+        return rng.choice([{"$tfsim$": "pairs", "v": [["a", 5]]},
+                           {"$tfsim$": "pairs", "v": [[5, "x"]]},
+                           {"$tfsim$": "pairs", "v": [["a", True]]}, 5,
+                           {"$tfsim$": "set", "v": ["a"]}])
+    return rng.choice([{"$tfsim$": "pairs", "v": [["p", "1"]]},
+                       {"$tfsim$": "pairs", "v": [[5, 1]]},
+                       {"$tfsim$": "pairs", "v": [["p", True]]}, 5,
+                       {"$tfsim$": "set", "v": ["p"]}])
 
 
 def sweep_listing(prop, seed, cfg, ops, tier, agg):
